@@ -66,6 +66,8 @@ def open_if(P, i):
         return open_if(P, n["kids"][2])
     if k in ("While", "For", "Label", "Case", "CaseR", "Default"):
         return open_if(P, n["kids"][0])
+    if k in ("WhileE", "ForE", "SwitchE"):
+        return open_if(P, n["kids"][1])
     return False
 
 
@@ -160,12 +162,23 @@ def rs(P, i, sw, tm=None, wd=None):
         cond = "" if (n["a"] == 9 and not n["b"] & 1) else loop_cond(n, i, False, tm, wd)
         inc = "(M(%d), c%d++)" % (200 + i, i) if n["b"] & 2 else "c%d++" % i
         return "for (c%d = %s; %s; %s) %s" % (i, cnum(wd, 0), cond, inc, R(0))
+    if k == "WhileE":
+        return "while (%s) %s" % (R(0), R(1))
+    if k == "DoE":
+        return "do %s while (%s);" % (R(0), R(1))
+    if k == "ForE":
+        return "for (c%d = 0; %s; (%s, c%d++)) %s" % (i, R(0), R(2), i, R(1))
+    if k == "SwitchE":
+        return "switch (%s) %s" % (R(0), R(1))
     if k == "Switch":
         if sw:
-            return "{ %s v%d = %s; switch (v%d) %s }" % (sw[0], i, (sw[2] if len(sw) > 2 else sw[1])[n["a"]], i, R(0))
+            ctl = sw[3][str(i)] if len(sw) > 3 else (sw[2] if len(sw) > 2 else sw[1])[n["a"]]
+            return "{ %s v%d = %s; switch (v%d) %s }" % (sw[0], i, ctl, i, R(0))
         return "switch (%d) %s" % (n["a"], R(0))
     if k == "Case":
         return "case %s: %s" % (cv(n["a"]), R(0))
+    if k == "CaseR" and sw and len(sw) > 3:       # dense family: every value of the range as a label of its own
+        return "case %s: %s" % (": case ".join(cv(v) for v in range(n["a"], n["b"] + 1)), R(0))
     if k == "CaseR":
         return "case %s ... %s: %s" % (cv(n["a"]), cv(n["b"]), R(0))
     if k == "Default":
@@ -206,7 +219,7 @@ def rs(P, i, sw, tm=None, wd=None):
 def render_flow(idx, c):
     P = c["p"]
     sw = c.get("sw")
-    cs = [i + 1 for i, n in enumerate(P) if n["k"] in LOOPS + ("CntLt",)]
+    cs = [i + 1 for i, n in enumerate(P) if n["k"] in LOOPS + ("CntLt", "ForE")]
     labs = sorted(n["a"] for n in P if n["k"] == "Label")
     stars = [n["a"] for n in P if n["k"] == "GotoStar"]
     out = ["static void f%d(void) {" % idx]
@@ -415,6 +428,55 @@ def typed_switch_cases(progs):
                 continue            # no label outside the type's range: covered by the other family
             narrow.append(dict(p=c["p"], tr=c["tr"], sw=[ty, vm, cm], swsig="label-outside-narrow-type:" + ty.replace(" ", "-"), emb=100 + ei))
     return out, narrow
+
+
+# dense switches: every abstract label value j stands for the block of 8 consecutive labels base+8j .. base+8j+7
+# (a switch with one label has 8 labels, two adjacent ones 16, non-adjacent ones leave a hole; ranges are written
+# out label by label).  A controlling value that no label of its switch covers is rendered as one of the switch's
+# labels plus a multiple of 2^32: equal low halves, still no match.   (type, base, suffix, offsets)
+DENSE = [("long", 0, "L", [0x100000000, 0x700000000, -0x100000000]),
+         ("long", -20, "L", [0x100000000, -0x300000000]),
+         ("unsigned long", 5, "UL", [0x100000000, 0xffffffff00000000])]
+
+
+def dense_switch_cases(progs):
+    out = []
+    for c in progs:
+        P = c["p"]
+        sws = [i + 1 for i, n in enumerate(P) if n["k"] == "Switch"]
+        if not sws:
+            continue
+        par = {}
+        for i, n in enumerate(P):
+            for j in n["kids"]:
+                par[j] = i + 1
+
+        def owner(j):
+            j = par.get(j)
+            while j and P[j - 1]["k"] != "Switch":
+                j = par.get(j)
+            return j
+        cover = {i: set() for i in sws}
+        for j, n in enumerate(P):
+            if n["k"] in ("Case", "CaseR") and owner(j + 1) in cover:
+                cover[owner(j + 1)] |= set(range(n["a"], (n["b"] if n["k"] == "CaseR" else n["a"]) + 1))
+        if not any(cover[i] and P[i - 1]["a"] not in cover[i] for i in sws):
+            continue                # no switch whose value misses all its labels: nothing new to see
+        for di, (ty, base, suf, offs) in enumerate(DENSE):
+            for oi, off in enumerate(offs):
+                lab = lambda v: "%d%s" % (v, suf) if v >= 0 else "(%d%s)" % (v, suf)
+                vm = [": case ".join(lab(base + 8 * j + k) for k in range(8)) for j in range(4)]
+                ctl = {}
+                for i in sws:
+                    a = P[i - 1]["a"]
+                    if a in cover[i] or not cover[i]:
+                        ctl[str(i)] = lab(base + 8 * a + 3)
+                    else:
+                        hit = base + 8 * min(cover[i]) + (i + oi) % 8          # a label of this switch ...
+                        v = (hit + off) % (1 << 64) if ty.startswith("unsigned") else hit + off      # ... plus k * 2^32
+                        ctl[str(i)] = lab(v) if v < (1 << 63) else "0x%xUL" % v
+                out.append(dict(p=P, tr=c["tr"], sw=[ty, vm, None, ctl], swsig="dense-labels:" + ty.replace(" ", "-"), emb=200 + 10 * di + oi))
+    return out
 
 
 def truth_typed_cases(progs):
@@ -691,6 +753,11 @@ PROFILES = {
     "swloop": (["Mark", "Seq", "Switch", "Case", "Default", "Break", "Continue", "While", "For"], [2], [0], [1], [1, 2], 1, 6, 7, 4),
     "expr":   (["Expr", "T", "F", "Not", "And", "Or", "Cond", "Comma", "SE", "Mark", "If"], [2], [0], [1], [1], 1, 7, 8, 5),
     "sejump": (["Mark", "Seq", "Expr", "SE", "T", "F", "And", "Goto", "Label", "While", "Break", "Continue"], [2], [0], [1], [1], 1, 6, 7, 5),
+    # break / continue / goto inside statement expressions in the controlling expressions of while, do-while,
+    # for (condition and increment), switch and if, nested in an outer loop / switch
+    "condjump": (["Mark", "SE", "T", "F", "While", "Switch", "Case", "WhileE", "SwitchE", "Break", "Continue"], [2], [0], [1], [1], 1, 6, 7, 5),
+    "dojump":   (["Mark", "SE", "T", "F", "While", "Switch", "DoE", "Break", "Continue"], [2], [0], [1], [1], 1, 6, 7, 5),
+    "forjump":  (["Mark", "SE", "T", "F", "While", "ForE", "Break", "Continue"], [2], [0], [1], [1], 1, 7, 8, 5),
     "goto":   (["Mark", "Seq", "If", "CntLt", "Goto", "GotoStar", "Label", "While", "Break"], [2], [0], [1], [1], 2, 6, 7, 4),
 }
 
@@ -702,14 +769,32 @@ CTL_PROFILES = {
 }
 
 
-def flow_cfg(ctx, name, maxn, variant="ok", emit=True):
+def flow_cfg(ctx, name, maxn, variant="ok", emit=True, forlate=True):
     ks, lc, lb, sv, cvs, nl, _, _, md = (PROFILES.get(name) or CTL_PROFILES[name])
     return ctx.cfg("flow", "CFlow_mc.cfg", name="CFlow-" + name, MaxN=maxn, MaxD=md, Kinds=kset(ks), LoopConds=iset(lc),
-                   LoopB=iset(lb), SwVals=iset(sv), CaseVals=iset(cvs), NLab=nl, Variant='"%s"' % variant, Emit=emit)
+                   LoopB=iset(lb), SwVals=iset(sv), CaseVals=iset(cvs), NLab=nl, Variant='"%s"' % variant, Emit=emit,
+                   ForLate=forlate)
+
+
+def subtree(P, i):
+    out = [i]
+    for j in P[i - 1]["kids"]:
+        out += subtree(P, j)
+    return out
+
+
+def jump_in_for_clause(P):
+    return any(n["k"] == "ForE" and any(P[j - 1]["k"] in ("Break", "Continue") for kid in (n["kids"][0], n["kids"][2]) for j in subtree(P, kid))
+               for n in P)
+
+
+FULL = ("condjump", "dojump", "forjump")     # small profiles whose programs are all replayed in the quick tier too
 
 
 def flow_sig(c, exp, got):
     ks = set(n["k"] for n in c["p"])
+    if jump_in_for_clause(c["p"]):
+        return "flow:jump-in-for-clause"
     if c.get("sw"):
         return "switch:" + c["swsig"]
     if c.get("rot") is not None:
@@ -725,7 +810,7 @@ def flow_sig(c, exp, got):
 
 PAR = int(os.environ.get("VERIF_C03_PAR", "4"))      # concurrent TLC runs (2 workers each)
 
-CONTROLS = [("loopmini", 5, "norestore-cont"), ("loopmini", 5, "norestore-brk"), ("swmini", 6, "norestore-sw"),
+CONTROLS = [("dojump", 6, "do-restore-late"), ("loopmini", 5, "norestore-cont"), ("loopmini", 5, "norestore-brk"), ("swmini", 6, "norestore-sw"),
             ("expr", 4, "and-or-mixup"), ("swmini", 6, "default-first"), ("swmini", 4, "range-open")]
 
 
@@ -745,18 +830,21 @@ def tlc_jobs(ctx):
         if dk:
             kw["Decls"] = dk
         jobs.append((("scope", "%d/%d%s" % (mdl, mo, "t" if dk else ""), out), "Scope", ctx.cfg("flow", "Scope_mc.cfg", **kw), dict(OUT=out), 2 if q else 4, "3g", True, "ok"))
-    for name in ("all", "goto", "switch", "loops", "swloop", "expr", "sejump"):
+    for name in ("all", "goto", "switch", "loops", "swloop", "expr", "sejump", "condjump", "dojump", "forjump"):
         prof = PROFILES[name]
         out = os.path.join(ctx.scratch, "flow-%s.ndjson" % name)
         jobs.append((("prof", name, out), "CFlow", flow_cfg(ctx, name, prof[6] if q else prof[7]), dict(OUT=out), 2, "3g", True, "ok"))
     # quick runs one control per mechanism, thorough all of them
-    for name, n, v in [c for c in CONTROLS if not q or c[2] in ("norestore-cont", "norestore-sw", "and-or-mixup")]:
+    for name, n, v in [c for c in CONTROLS if not q or c[2] in ("norestore-cont", "norestore-sw", "and-or-mixup", "do-restore-late")]:
         jobs.append((("ctl", "CFlow:" + v, None), "CFlow", flow_cfg(ctx, name, n, variant=v, emit=False), None, 1, "1g", False, "reject"))
     for v in ("for-noleave", "def-completes-outer") if q else ("for-noleave", "typedef-own-map", "def-completes-outer", "fwd-finds-outer"):
         jobs.append((("ctl", "Scope:" + v, None), "Scope", ctx.cfg("flow", "Scope_mc.cfg", MaxDecl=2, Variant='"%s"' % v), None, 1, "1g", False, "reject"))
     jobs.append((("mc", "SwitchCmp", None), "SwitchCmp", ctx.cfg("flow", "SwitchCmp.cfg"), None, 1, "1g", True, "ok"))
     jobs.append((("ctl", "SwitchCmp:labels-in-int", None), "SwitchCmp", ctx.cfg("flow", "SwitchCmp.cfg", FIXED=False), None, 1, "1g", False, "reject"))
     jobs.append((("ctl", "SwitchCmp:narrow-wrap", None), "SwitchCmp", ctx.cfg("flow", "SwitchCmp.cfg", NarrowWrap=True), None, 1, "1g", False, "reject"))
+    jobs.append((("ctl", "SwitchCmp:low32", None), "SwitchCmp", ctx.cfg("flow", "SwitchCmp.cfg", Low32=True), None, 1, "1g", False, "reject"))
+    if not q:
+        jobs.append((("ctl", "CFlow:for-labels-early", None), "CFlow", flow_cfg(ctx, "forjump", 7, emit=False, forlate=False), None, 1, "1g", False, "reject"))
     jobs.append((("mc", "Truth", None), "Truth", ctx.cfg("flow", "Truth.cfg"), None, 1, "1g", True, "ok"))
     for v in ("rhs-in-lhs-class", "cmp-width-of-result") if q else ("rhs-in-lhs-class", "nan-false", "cmp-width-of-result"):
         jobs.append((("ctl", "Truth:" + v, None), "Truth", ctx.cfg("flow", "Truth.cfg", Variant='"%s"' % v), None, 1, "1g", False, "reject"))
@@ -806,7 +894,7 @@ def run(ctx):
         for c in progs[name]:
             c["prof"] = name
             allp.append(c)
-    sel = vt.subsample(allp, ctx.seed, 3 if q else 1)
+    sel = vt.subsample([c for c in allp if c["prof"] not in FULL], ctx.seed, 3 if q else 1) + [c for c in allp if c["prof"] in FULL]
     mid = max(sel[:400], key=lambda c: len(c["tr"]))
     ctx.sample(dict(kind="flow", profile=mid["prof"], c_source=render_flow(0, mid), expected=expect_flow(0, mid)))
     compare(ctx, tree, sel, render_flow, expect_flow, main_flow, "flow", flow_sig,
@@ -815,7 +903,9 @@ def run(ctx):
     ctx.phase("flow replay")
     # switch at the real widths: 7 controlling types x 16 embeddings, and narrow types with labels outside their range
     typed, narrow = typed_switch_cases([c for c in progs["switch"] if len(c["p"]) <= (5 if q else 6)])
-    tsel = vt.subsample(typed, ctx.seed, 24 if q else 1) + vt.subsample(narrow, ctx.seed, 6 if q else 1)
+    dense = dense_switch_cases([c for name in ("switch", "swloop") for c in progs[name] if len(c["p"]) <= (5 if q else 6)])
+    tsel = (vt.subsample(typed, ctx.seed, 24 if q else 1) + vt.subsample(narrow, ctx.seed, 6 if q else 1) +
+            vt.subsample(dense, ctx.seed, 8 if q else 1))
     ctx.sample(dict(kind="switch", c_source=render_flow(0, tsel[-1]), expected=expect_flow(0, tsel[-1])))
     compare(ctx, tree, tsel, render_flow, expect_flow, main_flow, "switch", flow_sig, first=1000000)
     ctx.phase("typed switch replay")
@@ -839,7 +929,7 @@ def run(ctx):
     return ctx.finish(
         rule="case = one complete program of CFlow.tla (per profile; per controlling type x value embedding for the switch profile; per operand-type assignment for the truth family) or one history of Scope.tla, compiled by the tree's chibicc; the printed mark trace / bound declarations are compared with Level A; non-trivial = at least 3 statement nodes / 2 declarations; distinct = distinct program, embedding, typing or history",
         exhaustive=not q, extra=dict(flow_programs=len(allp), flow_replayed=len(sel), typed_switch_programs=len(typed),
-                                     narrow_switch_programs=len(narrow), typed_switch_replayed=len(tsel),
+                                     narrow_switch_programs=len(narrow), dense_switch_programs=len(dense), typed_switch_replayed=len(tsel),
                                      truth_typed_programs=len(truth), wide_counter_programs=len(wide), truth_typed_replayed=len(usel),
                                      scope_histories=nh, scope_replayed=nhs))
 
